@@ -68,6 +68,13 @@ JudgeTest(line) ==
   /\ Relate(line.i, "cases",
             err \/ (Len(o.cases) = Len(line.cases) /\
                     \A k \in 1 .. Len(line.cases) : CaseOk(line.prog, line.cases[k], o.cases[k])))
+  \* JUnit: the counters of the report are those of its own entries (one test per expectation, one
+  \* failure per unmet expectation), which `cases` has judged against the specification
+  /\ ("counts" \in DOMAIN o) =>
+       Relate(line.i, "junit-counters",
+              /\ o.counts.tests = o.counts.testcases
+              /\ o.counts.failures = o.counts.failure_elements
+              /\ o.counts.suite_failures = o.counts.failure_elements)
   \* test agrees with validate on the evaluated statuses (both observed from the implementation)
   /\ Relate(line.i, "test-vs-validate",
             err \/ Len(o.cases) # Len(line.cases) \/ \A k \in 1 .. Len(line.cases) :
